@@ -2,7 +2,7 @@
 from ..srules import S, find_values, contains_value
 from ..guard import PROVED, VIOLATION, UNDECIDED
 from .common import g_obligations
-from . import parsers
+from . import parsers, escaping
 
 EXPLANATION = (
     "Decides the clauses of the statement that are visible in the shape of the parser: integer members cannot wrap "
@@ -50,6 +50,7 @@ def run(ctx):
     ctx.floor("C01.calls-after-open-quote", n, 1)
     parsers.fallthrough_skips_member(ctx, s, parsers.EVENT_PARSER)
     parsers.skipper_first_set(ctx, s)
+    escaping.unescape_writes(ctx, s)
     # 4. consumed length
     an = ctx.E.an(fn)
     oks = [(n_, v) for n_, k, v in s.return_kinds(fn) if k == "ok"]
